@@ -19,7 +19,8 @@ func init() {
 		Explanation: "Panic obligations and table agreement for the configuration upgrade (package configmigrate, every function incl. generic instantiations). " +
 			"Decided: (D1) every map store writes into a map proven non-nil (fresh map, parameter whose every caller passes a non-nil map, result of a typed accessor whose summary 'ok implies non-nil' is itself verified with static folding of type assertions, comma-ok assertion under its ok edge, local cell re-made after it escaped to the YAML decoder); no map value that may be nil is stored into the document; no single-result type assertion, no explicit panic, no integer division; every non-constant index/slice operation is a range-loop index or is dominated by the version validation; " +
 			"(D2) every return of Migrate whose error may be non-nil returns the original body and false; (D3) the step table has exactly LastSchemaVersion non-nil slots and slot i stamps schema_version i+1 on every path that returns nil; the table is indexed only after validateVersion succeeded. " +
-			"Not decided: path independence, idempotence, preservation of unrelated settings and loader acceptance (value-level equalities over documents).",
+			"(D4) path independence, type part: a value a step stores into the document whose Go type is not what the YAML decoder would give back for it (e.g. timeutil.Duration, which is written to the file as a string) is never read by a later step through a typed accessor or type assertion — otherwise the outcome depends on whether the two steps run in one call (typed value in memory) or in two (decoded string). " +
+			"Not decided: the value part of path independence, idempotence, preservation of unrelated settings and loader acceptance (value-level equalities over documents).",
 		RuleText: "Obligations are SSA instructions that can panic on attacker-shaped YAML; each is discharged by an enumerated rule or fails.",
 		Assumptions: []string{
 			"yaml.v3 decodes a YAML null into an untyped nil interface (never a typed nil map) and yields only map[string]any / []any / scalars for untyped targets",
@@ -131,6 +132,7 @@ func runC13(c *Ctx) {
 
 	a.migrateReturns()
 	a.table()
+	a.roundTripStable()
 }
 
 func isFuncArray(t types.Type) bool {
@@ -965,4 +967,297 @@ func mayBeNilErr(v ssa.Value) bool {
 		return false
 	}
 	return true
+}
+
+// c13Stable: the dynamic types the YAML decoder produces for untyped targets
+// (a value of such a type is the same in memory and after a write/read of
+// the file).
+func c13Stable(t types.Type) bool {
+	switch core.TypeKey(types.Unalias(t)) {
+	case "string", "bool", "int", "float64", "untyped nil", "[]any", "[]interface{}", "map[string]any", "map[string]interface{}", "any", "interface{}":
+		return true
+	}
+	return false
+}
+
+type c13KeyFact struct {
+	typ  string
+	step int
+	pos  string
+}
+
+// roundTripStable: D4.
+func (a *c13) roundTripStable() {
+	p, r := a.P, a.R
+	up := p.Fn("(*configmigrate.Migrator).upgradeConfigSchema")
+	if up == nil {
+		r.Undecided("C13-D4", "steps", "-", "upgradeConfigSchema not found")
+		return
+	}
+	// slot -> step function
+	slots := map[int]*ssa.Function{}
+	for _, b := range up.Blocks {
+		for _, in := range b.Instrs {
+			st, ok := in.(*ssa.Store)
+			if !ok {
+				continue
+			}
+			ia, isIdx := st.Addr.(*ssa.IndexAddr)
+			if !isIdx || !isFuncArray(ia.X.Type()) {
+				continue
+			}
+			i, ok := core.ConstInt(ia.Index)
+			f, _ := core.FnValue(st.Val)
+			if !ok || f == nil {
+				continue
+			}
+			if strings.HasSuffix(f.Name(), "$bound") || strings.HasSuffix(f.Name(), "$thunk") {
+				for _, call := range core.Calls(f) {
+					if sc := call.Common.StaticCallee(); sc != nil {
+						f = sc
+						break
+					}
+				}
+			}
+			slots[int(i)] = f
+		}
+	}
+	if len(slots) < 20 {
+		r.Undecided("C13-D4", "steps", p.FnPos(up), fmt.Sprintf("only %d steps resolved from the table", len(slots)))
+		return
+	}
+	isHelper := func(fn *ssa.Function) (name string, targ types.Type, ok bool) {
+		k := core.FuncKey(fn)
+		for _, h := range []string{"configmigrate.fieldVal", "configmigrate.moveVal", "configmigrate.moveSameVal"} {
+			if strings.HasPrefix(k, h+"[") && len(fn.TypeArgs()) == 1 {
+				return strings.TrimPrefix(h, "configmigrate."), fn.TypeArgs()[0], true
+			}
+		}
+		return "", nil, false
+	}
+	unstable := map[string]c13KeyFact{}
+	nWrites, nReads := 0, 0
+	var order []int
+	for i := range slots {
+		order = append(order, i)
+	}
+	sort.Ints(order)
+	for _, slot := range order {
+		step := slots[slot]
+		// the step and its non-helper callees in the package
+		fns := []*ssa.Function{}
+		seen := map[*ssa.Function]bool{}
+		var walk func(fn *ssa.Function)
+		walk = func(fn *ssa.Function) {
+			if fn == nil || seen[fn] || fn.Blocks == nil || core.PkgOf(fn) != "configmigrate" {
+				return
+			}
+			if _, _, h := isHelper(fn); h {
+				return
+			}
+			seen[fn] = true
+			fns = append(fns, fn)
+			for _, call := range core.Calls(fn) {
+				walk(call.Common.StaticCallee())
+			}
+			for _, an := range fn.AnonFuncs {
+				walk(an)
+			}
+		}
+		walk(step)
+		type wr struct {
+			key string
+			f   c13KeyFact
+		}
+		var writes []wr
+		var moved [][2]string
+		var cleared []string
+		var sectionOf func(v ssa.Value, depth int) string
+		sectionOf = func(v ssa.Value, depth int) string {
+			if depth > 6 {
+				return "*"
+			}
+			switch x := v.(type) {
+			case *ssa.Parameter:
+				if x.Parent() == step && x.Type().String() == step.Params[len(step.Params)-1].Type().String() {
+					if _, isMap := x.Type().Underlying().(*types.Map); isMap {
+						return ""
+					}
+				}
+				return "*"
+			case *ssa.Extract:
+				if call, ok := x.Tuple.(*ssa.Call); ok && x.Index == 0 {
+					if callee := call.Call.StaticCallee(); callee != nil {
+						if name, _, ok := isHelper(callee); ok && name == "fieldVal" {
+							if k, ok := core.ConstString(call.Call.Args[1]); ok {
+								return sectionOf(call.Call.Args[0], depth+1) + "/" + k
+							}
+						}
+					}
+				}
+				if ta, ok := x.Tuple.(*ssa.TypeAssert); ok && x.Index == 0 {
+					return sectionOf(ta.X, depth+1)
+				}
+				if lk, ok := x.Tuple.(*ssa.Lookup); ok && x.Index == 0 {
+					if k, ok := core.ConstString(lk.Index); ok {
+						return sectionOf(lk.X, depth+1) + "/" + k
+					}
+				}
+				return "*"
+			case *ssa.Lookup:
+				if k, ok := core.ConstString(x.Index); ok {
+					return sectionOf(x.X, depth+1) + "/" + k
+				}
+				return "*"
+			case *ssa.TypeAssert:
+				return sectionOf(x.X, depth+1)
+			case *ssa.MakeMap:
+				for _, u := range core.Users(x) {
+					if mi, ok := u.(*ssa.MakeInterface); ok {
+						for _, u2 := range core.Users(mi) {
+							if mu, ok := u2.(*ssa.MapUpdate); ok && mu.Value == ssa.Value(mi) {
+								if k, ok := core.ConstString(mu.Key); ok {
+									return sectionOf(mu.Map, depth+1) + "/" + k
+								}
+							}
+						}
+					}
+				}
+				return "new"
+			case *ssa.Phi:
+				sec := ""
+				for i, e := range x.Edges {
+					se := sectionOf(e, depth+1)
+					if i > 0 && se != sec {
+						return "*"
+					}
+					sec = se
+				}
+				return sec
+			case *ssa.UnOp:
+				if cell, ok := x.X.(*ssa.Alloc); ok {
+					vals := core.CellStores(cell)
+					sec := "*"
+					for i, sv := range vals {
+						se := sectionOf(sv, depth+1)
+						if i > 0 && se != sec {
+							return "*"
+						}
+						sec = se
+					}
+					return sec
+				}
+			}
+			return "*"
+		}
+		readTyped := func(key string, t types.Type, at ssa.Instruction, how string) {
+			nReads++
+			u, bad := unstable[key]
+			if !bad {
+				// an access through an object of unknown position ("*") matches by key name
+				base := key[strings.LastIndex(key, "/")+1:]
+				for uk, uv := range unstable {
+					if uk[strings.LastIndex(uk, "/")+1:] == base && (strings.HasPrefix(key, "*") || strings.HasPrefix(uk, "*")) {
+						u, bad = uv, true
+					}
+				}
+			}
+			if bad {
+				r.Fail("C13-D4", fmt.Sprintf("typed-read-of-unstable-key:%s@step%d", key, slot+1), p.InstrPos(at),
+					fmt.Sprintf("step %d reads %q %s as %s, but step %d stores a %s there (%s): in one run the value in memory is a %s, after a write/read of the file it is what YAML decodes — the result of the upgrade depends on where it is split", slot+1, key, how, core.TypeKey(t), u.step, u.typ, u.pos, u.typ))
+			}
+		}
+		for _, fn := range fns {
+			for _, b := range fn.Blocks {
+				for _, in := range b.Instrs {
+					switch x := in.(type) {
+					case *ssa.MapUpdate:
+						k, ok := core.ConstString(x.Key)
+						if !ok {
+							continue
+						}
+						nWrites++
+						k = sectionOf(x.Map, 0) + "/" + k
+						if mi, ok := x.Value.(*ssa.MakeInterface); ok {
+							if !c13Stable(mi.X.Type()) {
+								writes = append(writes, wr{k, c13KeyFact{core.TypeKey(mi.X.Type()), slot + 1, p.InstrPos(in)}})
+							} else {
+								cleared = append(cleared, k)
+							}
+						}
+					case *ssa.TypeAssert:
+						// direct assertion on obj[key]
+						if c13Stable(x.AssertedType) && core.TypeKey(x.AssertedType) == "any" {
+							continue
+						}
+						var lk *ssa.Lookup
+						switch y := x.X.(type) {
+						case *ssa.Lookup:
+							lk = y
+						case *ssa.Extract:
+							lk, _ = y.Tuple.(*ssa.Lookup)
+						}
+						if lk != nil {
+							if k, ok := core.ConstString(lk.Index); ok {
+								readTyped(sectionOf(lk.X, 0)+"/"+k, x.AssertedType, in, "with a type assertion")
+							}
+						}
+					case *ssa.Call:
+						callee := x.Call.StaticCallee()
+						if callee == nil {
+							continue
+						}
+						name, targ, ok := isHelper(callee)
+						if !ok {
+							continue
+						}
+						isAny := core.TypeKey(targ) == "any" || core.TypeKey(targ) == "interface{}"
+						switch name {
+						case "fieldVal":
+							if k, ok := core.ConstString(x.Call.Args[1]); ok && !isAny {
+								readTyped(sectionOf(x.Call.Args[0], 0)+"/"+k, targ, in, "through fieldVal")
+							}
+						case "moveVal", "moveSameVal":
+							k1, ok1 := core.ConstString(x.Call.Args[2])
+							k2 := k1
+							ok2 := ok1
+							if name == "moveVal" {
+								k2, ok2 = core.ConstString(x.Call.Args[3])
+							}
+							k1 = sectionOf(x.Call.Args[0], 0) + "/" + k1
+							k2 = sectionOf(x.Call.Args[1], 0) + "/" + k2
+							if ok1 && !isAny {
+								readTyped(k1, targ, in, "through "+name)
+							}
+							if ok1 && ok2 {
+								moved = append(moved, [2]string{k1, k2})
+							}
+						}
+					}
+				}
+			}
+		}
+		for _, m := range moved {
+			if u, ok := unstable[m[0]]; ok {
+				delete(unstable, m[0])
+				unstable[m[1]] = u
+			}
+		}
+		for _, k := range cleared {
+			_ = k // a stable overwrite on some path does not clear the fact: other paths may keep the typed value
+		}
+		for _, w := range writes {
+			unstable[w.key] = w.f
+		}
+	}
+	var keys []string
+	for k, u := range unstable {
+		keys = append(keys, fmt.Sprintf("%s (%s, step %d)", k, u.typ, u.step))
+	}
+	sort.Strings(keys)
+	r.Info["keys_holding_non_round_trip_types"] = keys
+	r.Eval(nWrites + nReads)
+	r.Floor("C13-D4", "constant-key-stores", nWrites, 60)
+	r.Floor("C13-D4", "typed-reads", nReads, 60)
+	r.Ok("C13-D4", "typed-reads-of-stable-keys", "-", fmt.Sprintf("%d typed reads examined against %d key(s) that hold a non-round-trip-stable in-memory type", nReads, len(unstable)))
 }
